@@ -1,7 +1,7 @@
 #!/bin/bash
 # tools/seed7_eval.sh <Cxx> ...: evaluates the round-7 seeds of the given properties (agent worktrees /tmp/r7_<Cxx>/OUT/{1,2}) from a snapshot
 # of /verif (so that edits to /verif made meanwhile do not disturb the runs); results are copied to /verif/seeded/<id>/
-SNAP=/tmp/verif_snap
+SNAP=${SNAP:-/tmp/verif_snap}
 mkdir -p $SNAP
 rsync -a --delete --exclude .git --exclude build /verif/ $SNAP/
 for p in "$@"; do
